@@ -842,7 +842,13 @@ class StaticVector : public StaticVectorBase<T, SizeType> {
   template <class VectorType>
   void swap2_impl(VectorType &o) noexcept(is_swap_noexcept<T>::value) {
     swap_deep(this->begin(), this->size(), o.begin(), o.size());
-    swap_sizetype(this->msize(), o.msize());
+    {
+      // Go through 'setSize' so that the internal encoding of the size of a small vector is maintained.
+      // Each size is representable in the other's size_type (checked by the capacity adjustment)
+      const SizeType mySize = this->size();
+      this->setSize(static_cast<SizeType>(o.size()));
+      o.setSize(static_cast<decltype(o.size())>(mySize));
+    }
   }
 
   // Adjust capacity methods take uintmax_t as parameter to check for size_type overflow
@@ -967,18 +973,48 @@ class DynamicVector : public DynamicVectorBaseTypeDispatcher<T, Alloc, SizeType,
   void swap2_impl(StaticVector<T, OSizeType, OGrowingPolicy> &o) noexcept(is_swap_noexcept<T>::value) {
     // Here 'o' cannot grow so we cannot swap any dynamic storage. Deeply swap all elements
     swap_deep(this->begin(), this->size(), o.begin(), o.size());
-    swap_sizetype(this->msize(), o.msize());
+    {
+      // Go through 'setSize' so that the internal encoding of the size of a small vector is maintained.
+      // Each size is representable in the other's size_type (checked by the capacity adjustment)
+      const SizeType mySize = this->size();
+      this->setSize(static_cast<SizeType>(o.size()));
+      o.setSize(static_cast<decltype(o.size())>(mySize));
+    }
   }
 
   template <class OAlloc, class OSizeType, bool OWithInlineElems>
   void swap2_impl(DynamicVector<T, OAlloc, OSizeType, OWithInlineElems> &o) noexcept(is_swap_noexcept<T>::value) {
-    if (this->canSwapDynStorage(o)) {
+    if (canSwapDynStorageWith(o)) {
+      // Take the references to the real size and capacity members while both states are still consistent
+      SizeType &capa = this->mcapacity();
+      SizeType &size = this->msize();
+      OSizeType &oCapa = o.mcapacity();
+      OSizeType &oSize = o.msize();
       this->swapDynStorage(o);
-      swap_sizetype(this->mcapacity(), o.mcapacity());
+      swap_sizetype(capa, oCapa);  // cannot throw, checked by 'canSwapDynStorageWith'
+      swap_sizetype(size, oSize);
     } else {
       swap_deep(this->begin(), this->size(), o.begin(), o.size());
+      {
+        // Go through 'setSize' so that the internal encoding of the size of a small vector is maintained.
+        // Each size is representable in the other's size_type (checked by the capacity adjustment)
+        const SizeType mySize = this->size();
+        this->setSize(static_cast<SizeType>(o.size()));
+        o.setSize(static_cast<decltype(o.size())>(mySize));
+      }
     }
-    swap_sizetype(this->msize(), o.msize());
+  }
+
+  /// Dynamic storage can be exchanged only if each capacity is representable in the other's size_type
+  template <class OAlloc, class OSizeType, bool OWithInlineElems>
+  bool canSwapDynStorageWith(DynamicVector<T, OAlloc, OSizeType, OWithInlineElems> &o) const noexcept {
+    return this->canSwapDynStorage(o) &&
+           static_cast<uintmax_t>(o.capacity()) <= static_cast<uintmax_t>(std::numeric_limits<SizeType>::max()) &&
+           static_cast<uintmax_t>(this->capacity()) <= static_cast<uintmax_t>(std::numeric_limits<OSizeType>::max());
+  }
+  template <class OSizeType, class OGrowingPolicy>
+  bool canSwapDynStorageWith(StaticVector<T, OSizeType, OGrowingPolicy> &) const noexcept {
+    return false;
   }
 
   // Adjust capacity methods take uintmax_t as parameter to check for size_type overflow
@@ -1029,7 +1065,7 @@ class DynamicVector : public DynamicVectorBaseTypeDispatcher<T, Alloc, SizeType,
   /// (as the two size types may differ we should use LargestSizeType to avoid overflows)
   template <class VectorType>
   void adjustEachOtherCapacity(VectorType &o) {
-    if (!this->canSwapDynStorage(o)) {
+    if (!canSwapDynStorageWith(o)) {
       adjustCapacity(o.size());
       o.adjustCapacity(this->size());
     }
